@@ -798,7 +798,7 @@ Proof.
   unfold spec in *. rewrite Ef, Eg in Hb.
   set (roots' := dedup_keep_first roots) in *.
   set (st0 := init_state W o (empty_bgraph k)) in *.
-  destruct (resolve_pending (build_fuel W) W o (load_imports W o (load_roots W o st0 roots') imports)) as [st|] eqn:HR;
+  match type of Hb with context [resolve_pending ?f W o ?stx] => destruct (resolve_pending f W o stx) as [st|] eqn:HR end;
     [|discriminate].
   inversion Hb; subst; clear Hb. unfold Settled. cbn [bg_slots bg_redirects finish].
   destruct (load_roots_spec roots' st0) as [G1 S1].
